@@ -13,7 +13,7 @@ from vmon.libutil import monitored, xtce_element
 
 LEVEL = "exploration"
 SHARDS = {"quick": 16, "thorough": 16}
-MUST = ["string.term_several_code_units", "generic_charset.text_starting_with_bom_character", "route.rewritten_ok", "sequence.cases", "len.lookup-zero", "len.fractional-reference", "string.whole", "string.term", "string.lead", "binary", "len.fixed", "len.dyn", "len.lookup", "len.zero", "len.not-multiple-of-8",
+MUST = ["string.term_several_code_units", "framed_objects.passes", "generic_charset.both_byte_orders_in_one_process", "generic_charset.text_starting_with_bom_character", "route.rewritten_ok", "sequence.cases", "len.lookup-zero", "len.fractional-reference", "string.whole", "string.term", "string.lead", "binary", "len.fixed", "len.dyn", "len.lookup", "len.zero", "len.not-multiple-of-8",
         "offset.unaligned", "charset.multi", "charset.single", "route.ctor", "route.xml", "expected.errors", "dyn.calibrated", "dyn.raw"]
 RULE = ("case = (string/binary encoding IR, values of the referenced length parameters, content bits, bit offset, "
         "construction route). Directed grid: 8 concrete character sets (+ generic UTF-16/UTF-32 with byteOrder) x "
@@ -219,7 +219,45 @@ def hostile_contents(rng, enc, L):
     return out
 
 
+def framed_objects_several_passes(ctx):
+    """end to end: a document with a dynamically sized string and a lookup-sized binary field; the raw packets are collected first
+    (ccsds_generator) and the very same raw packet objects are wrapped and parsed in three passes (a header-only pass with another root
+    first): every pass gives the model's values"""
+    from space_packet_parser import packets as P
+    from vmon import harness, render
+    from vmon.libutil import load_definition
+    from vmon.props.c05 import header_types
+    ts, ps = header_types("PKT_APID")
+    ts += [ir.PType("N_Type", "integer", ir.IntEnc(8, "unsigned", False)),
+           ir.PType("TXT_Type", "string", ir.StrEnc("UTF-8", ir.DynLen("N", False, 8, None), "00")),
+           ir.PType("BLOB_Type", "binary", ir.BinEnc(ir.Lookup((((ir.Comparison("N", "6", "<"),), 12), ((ir.Comparison("N", "6", ">="),), 20)))))]
+    ps += [ir.Param("N", "N_Type"), ir.Param("TXT", "TXT_Type"), ir.Param("BLOB", "BLOB_Type")]
+    hdr = tuple(("p", p.name) for p in ps[:7])
+    doc = ir.Doc(tuple(ts), tuple(ps), (ir.Container("CCSDSPacket", hdr + (("p", "N"), ("p", "TXT"), ("p", "BLOB"))), ir.Container("HeaderOnly", hdr)))
+    info = harness.DocInfo(doc)
+    defn = load_definition(render.render_doc(doc))
+    bodies = [(b"abc\x00", 12), (b"hello\x00\x00\x00", 20), (b"\x00", 12), (b"caf\xc3\xa9\x00", 20), (b"xy\x00zz", 12)]
+    raws = []
+    for i, (buf, nb) in enumerate(bodies):
+        raws.append(bytes(P.create_ccsds_packet(bytes([len(buf)]) + buf + bytes((nb + 7) // 8 * [0xA5 ^ i]), apid=11, sequence_count=i)))
+    framed = list(P.ccsds_generator(b"".join(raws)))
+    outs = [ref.walk(doc, r) for r in raws]
+    for f in framed:
+        monitored(defn.parse_ccsds_packet, P.CCSDSPacket(raw_data=f), root_container_name="HeaderOnly")
+    for pass_no in (1, 2, 3):
+        for f, raw, out in zip(framed, raws, outs):
+            pkt = P.CCSDSPacket(raw_data=f)
+            step = monitored(defn.parse_ccsds_packet, pkt)
+            ctx.count("evaluations")
+            ctx.count("framed_objects.passes")
+            ctx.sig("framed-object", pass_no)
+            for mech, msg in harness.judge_single(ctx, info, raw, step, pkt, out):
+                ctx.violation(f"framed-object-pass/{'first' if pass_no == 1 else 'later'}/{mech}", f"pass {pass_no} over the same framed raw packet objects: {msg}", {"pass": pass_no, "raw": raw})
+
+
 def run(ctx):
+    if ctx.shard == 1 % ctx.nshards:
+        framed_objects_several_passes(ctx)
     rng = ctx.rng("c07")
     routes = ("ctor", "xml", "rewritten")
     item = 0
@@ -257,10 +295,14 @@ def run(ctx):
                     if item < 30 and L == 24:
                         ctx.sample({"encoding": repr(enc), "assign": assign, "content_bits": contents[0][1]})
     # ---- generic UTF-16 / UTF-32 with an explicit byteOrder -------------------------------------------------------------
-    for charset, bo in itertools.product(("UTF-16", "UTF-32"), (ir.MSB, ir.LSB)):
+    #      both byte orders of one generic character set are used in the SAME process, alternating (a container holding both)
+    both_orders = []
+    for charset in ("UTF-16", "UTF-32"):
         item += 1
-        if not ctx.mine(item):
-            continue
+        if ctx.mine(item):
+            both_orders += [(charset, ir.MSB), (charset, ir.LSB), (charset, ir.MSB), (charset, ir.LSB)]
+    for charset, bo in both_orders:
+        ctx.count("generic_charset.both_byte_orders_in_one_process")
         unit = ref.CODE_UNIT[charset]
         for L in (8 * unit * 3, 8 * unit * 5):
             codec = charset.lower() + ("-be" if bo == ir.MSB else "-le")
